@@ -4,7 +4,7 @@ from __future__ import annotations
 
 import random
 
-from harness.core import (Verdict, tlc_model, tlc_judge, run_tlc, run_driver, seed, NCPU,
+from harness.core import (Verdict, tlc_model, tlc_judge, run_tlc, run_driver, run_apalache, seed, NCPU,
                           MachineryError)
 
 N = '~'
@@ -248,6 +248,17 @@ def x04(tier: str) -> int:
         'which directories have a cached connection is read from wn._db.pool']
     v.add_model('MC_Session (3 directories, 2 lexicons, all call sequences to depth 7)',
                 tlc_model('MC_Session'))
+    if thorough:
+        # unbounded: the invariant is inductive (Apalache): it holds initially and every call keeps it
+        a0 = run_apalache('APA_Session', 'Init', 'IndInv', 0)
+        a1 = run_apalache('APA_Session', 'IndInit', 'IndInv', 1)
+        v.cov['apalache_inductive_invariant'] = {'base': a0['ok'], 'step': a1['ok'],
+                                                 'wall_s': round(a0['wall'] + a1['wall'], 1)}
+        for a in (a0, a1):
+            if a['violated']:
+                v.violation('APA_Session: the invariant is not inductive', {'apalache_tail': a['out'][-2000:]})
+            elif not a['ok']:
+                raise MachineryError('apalache-mc failed:\n' + a['out'][-2000:])
     nwalk = 800 if thorough else 120
     sim = run_tlc('MC_Session', cfg='MC_SessionWalk.cfg', workers=1, simulate=f'num={nwalk}',
                   extra=['-depth', '30', '-seed', str(seed() + 104)], timeout=1800)
